@@ -1,8 +1,8 @@
 SPECIFICATION Spec
 CONSTANTS
   Callers = {"a", "b", "c"}
-  NReq = 2
-  NServe = 6
+  NReq = 1
+  NServe = 1
   OpCap = 1
   ResCap = 2
   ReplyLocksTarget = FALSE
